@@ -11,6 +11,8 @@ type GenOptions struct {
 	// CollisionPercent: chance that the catalog is seeded with databases "a" and "a_b" holding collections "b_c"
 	// and "c" (distinct objects whose db_coll keys coincide).
 	CollisionPercent int
+	// ShortIDs: allocate ids around 100000 instead of Milvus' 18-digit range, so that some ids have fewer digits than others.
+	ShortIDs bool
 }
 
 // FixedSnapshots are small hand-made catalogs run before the generated ones (smallest witnesses).
@@ -77,6 +79,11 @@ type genItem struct {
 func GenSnapshot(root string, rnd *rand.Rand, opt GenOptions) *Catalog {
 	c := New(root)
 	jit := func(n int) int { return rnd.Intn(n) }
+	if opt.ShortIDs {
+		// ids that cross a power of ten while the catalog is built: etcd lists keys as strings, so the listing order
+		// of database and collection records then differs from their creation order (…/99 after …/100)
+		c.nextID = 99_000 - int64(rnd.Intn(15_000))
+	}
 
 	type dbPlan struct {
 		name string
